@@ -166,7 +166,7 @@ pub fn run(
                 // the reverse half comes from a search that presents edge pairs to the frontier
                 // model in reverse order, and the turn at the junction of the two halves was never
                 // presented at all: validate the whole alternative in travel order
-                if accept_route && !route_is_permitted(&this_route, si) {
+                if accept_route && !bidirectional_ops::route_is_permitted(&this_route, si) {
                     log::debug!("ksp:{} uses a restricted edge or turn", ksp_it);
                     accept_route = false;
                 }
@@ -206,31 +206,6 @@ pub fn run(
         iterations: fwd_iterations + rev_iterations + ksp_it, // todo: figure out how to report individually
     };
     Ok(result)
-}
-
-/// true if the frontier model permits every edge of the route when reached from its
-/// predecessor (in travel order, with the state reported at the predecessor)
-fn route_is_permitted(route: &[EdgeTraversal], si: &SearchInstance) -> bool {
-    let Ok(initial_state) = si.state_model.initial_state() else {
-        return false;
-    };
-    let mut prev_state = initial_state.as_slice();
-    let mut prev_edge = None;
-    for edge_traversal in route.iter() {
-        let Ok(edge) = si.directed_graph.get_edge(&edge_traversal.edge_id) else {
-            return false;
-        };
-        match si
-            .frontier_model
-            .valid_frontier(edge, prev_state, prev_edge, &si.state_model)
-        {
-            Ok(true) => {}
-            _ => return false,
-        }
-        prev_state = edge_traversal.result_state.as_slice();
-        prev_edge = Some(edge);
-    }
-    true
 }
 
 /// checks if these two routes have the same length and id sequence
